@@ -12,6 +12,7 @@ pub mod model;
 pub mod rng;
 pub mod run;
 pub mod sim;
+pub mod tmodel;
 
 pub use cli::{Opts, Tier};
 pub use ev::Ev;
